@@ -7,7 +7,6 @@ package asmx
 
 import (
 	"fmt"
-	"os"
 	"path/filepath"
 	"regexp"
 	"sort"
@@ -48,7 +47,7 @@ func stripComment(l string) string {
 
 // parseFile expands macros and returns the TEXT functions of a .s file.
 func parseFile(path string) ([]*textFn, error) {
-	b, err := os.ReadFile(path)
+	b, err := core.ReadFile(path)
 	if err != nil {
 		return nil, err
 	}
